@@ -51,6 +51,9 @@ type cmdSpec struct {
 
 type treeSpec struct {
 	Cmds []cmdSpec `json:"cmds"`
+	// cobra's process-wide switches for sub-command names: a unique prefix / another case of a name dispatches too
+	PrefixMatching  bool `json:"prefixMatching"`
+	CaseInsensitive bool `json:"caseInsensitive"`
 }
 
 type runRecord struct {
@@ -285,6 +288,17 @@ func registerMarkers(spec treeSpec, cmds []*cobra.Command) {
 		for k := 0; k < cs.NPos; k++ {
 			pos = append(pos, carapace.ActionValues(marker(i, fmt.Sprintf("pos%d", k))))
 		}
+		if mixedMarkers && i%2 == 0 && (cs.NPos > 0 || cs.PosAny) {
+			// a command that mixes both styles: its positional arguments are completed by a function the program itself set
+			// with cobra's API, its flags (above) through carapace
+			cmds[i].ValidArgsFunction = func(cmd *cobra.Command, args []string, toComplete string) ([]string, cobra.ShellCompDirective) {
+				return []string{marker(i, fmt.Sprintf("vaf%d", len(args)))}, cobra.ShellCompDirectiveNoFileComp
+			}
+			pos = nil
+			cs.PosAny = false
+			// (cobra has one function per command for everything that is not a flag value: nothing of carapace's can sit beside it)
+			cs.NDash, cs.DashAny = 0, false
+		}
 		if len(pos) > 0 {
 			g.PositionalCompletion(pos...)
 		}
@@ -378,6 +392,10 @@ type parseIn struct {
 func runParse(raw json.RawMessage) interface{} {
 	var in parseIn
 	must(json.Unmarshal(raw, &in))
+	if len(in.Tree.Cmds) == 0 || len(in.Words) == 0 {
+		// not a case (the shrinker tries such inputs): nothing to decide
+		return map[string]interface{}{"export": exportDoc{}, "panic": "", "runs": []interface{}{}}
+	}
 	os.Setenv("CARAPACE_UNFILTERED", "1")
 	defer os.Unsetenv("CARAPACE_UNFILTERED")
 	for _, k := range []string{"COMP_LINE", "COMP_POINT", "CARAPACE_COMPLINE", "CARAPACE_HIDDEN", "CARAPACE_LENIENT", "NO_COLOR"} {
@@ -388,6 +406,9 @@ func runParse(raw json.RawMessage) interface{} {
 		os.Setenv("CARAPACE_HIDDEN", "1")
 		defer os.Unsetenv("CARAPACE_HIDDEN")
 	}
+	cobra.EnablePrefixMatching = in.Tree.PrefixMatching
+	cobra.EnableCaseInsensitive = in.Tree.CaseInsensitive
+	defer func() { cobra.EnablePrefixMatching = false; cobra.EnableCaseInsensitive = false }()
 	doc, rawOut, perr := completeLine(in.Tree, in.Words)
 	out := map[string]interface{}{"export": doc, "panic": perr}
 	if len(doc.Values) == 0 && len(doc.Messages) == 0 && perr == "" {
@@ -403,6 +424,61 @@ func runParse(raw json.RawMessage) interface{} {
 	// where would the program's own parser put a word typed here? (model-free completeness side of C01)
 	if cur := in.Words[len(in.Words)-1]; !strings.HasPrefix(cur, "-") {
 		out["probeRun"] = executeLine(in.Tree, append(append([]string{}, earlier...), "PROBE"))
+	}
+	// which flag names does the program itself accept here? (model-free completeness side of C07): every flag visible from the
+	// command the line so far dispatches to - and cobra's automatic `--version` - typed as the current word, with a value if it needs one
+	if cur := in.Words[len(in.Words)-1]; cur == "-" || cur == "--" {
+		if tr, ok := out["typedRun"].(runRecord); ok && tr.Err == "" && tr.Ran && tr.Cmd >= 0 && tr.Cmd < len(in.Tree.Cmds) {
+			fl := flagsOf(in.Tree, tr.Cmd)
+			if in.Tree.Cmds[tr.Cmd].Version {
+				fl = append(fl, flagSpec{Name: "version", Kind: "bool"})
+			}
+			probes := []map[string]interface{}{}
+			for _, f := range fl {
+				if len(probes) >= 10 || f.Mode != 0 {
+					continue
+				}
+				line := append(append([]string{}, earlier...), "--"+f.Name)
+				rec := executeLine(in.Tree, line)
+				for _, val := range []string{"VAL", "10.0.0.0/8", "true"} {
+					if strings.Contains(rec.Err, "needs an argument") || strings.Contains(rec.Err, "CIDR") || strings.Contains(rec.Err, "ParseBool") || strings.Contains(rec.Err, "invalid argument") {
+						rec = executeLine(in.Tree, append(line, val))
+					}
+				}
+				probes = append(probes, map[string]interface{}{"name": f.Name, "run": rec})
+			}
+			out["flagProbes"] = probes
+		}
+	}
+	// ... and inside a shorthand series (`-ab<TAB>`): which letters can the program take next?
+	if cur := in.Words[len(in.Words)-1]; len(cur) >= 2 && cur[0] == '-' && cur[1] != '-' && !strings.Contains(cur, "=") {
+		if tr, ok := out["typedCurRun"].(runRecord); ok && tr.Err == "" && tr.Ran && tr.Cmd >= 0 && tr.Cmd < len(in.Tree.Cmds) {
+			fl := flagsOf(in.Tree, tr.Cmd)
+			if in.Tree.Cmds[tr.Cmd].Version {
+				used := false
+				for _, f := range fl {
+					used = used || f.Short == "v"
+				}
+				if !used {
+					fl = append(fl, flagSpec{Name: "version", Short: "v", Kind: "bool"})
+				}
+			}
+			probes := []map[string]interface{}{}
+			for _, f := range fl {
+				if len(probes) >= 10 || f.Mode != 0 || len(f.Short) != 1 {
+					continue
+				}
+				line := append(append([]string{}, earlier...), cur+f.Short)
+				rec := executeLine(in.Tree, line)
+				for _, val := range []string{"VAL", "10.0.0.0/8", "true"} {
+					if strings.Contains(rec.Err, "needs an argument") || strings.Contains(rec.Err, "CIDR") || strings.Contains(rec.Err, "ParseBool") || strings.Contains(rec.Err, "invalid argument") {
+						rec = executeLine(in.Tree, append(line, val))
+					}
+				}
+				probes = append(probes, map[string]interface{}{"name": f.Name, "short": f.Short, "run": rec})
+			}
+			out["chainProbes"] = probes
+		}
 	}
 	// accept every offered candidate in turn and let the program's own parser place it
 	runs := []map[string]interface{}{}
@@ -778,7 +854,46 @@ func genParseNonPosix(r *rng, t treeSpec) parseIn {
 	return parseIn{Tree: t, Words: words}
 }
 
+// lenientNames: the program switched on cobra's prefix matching / case-insensitive matching of sub-command names, and the
+// user typed sub-commands in a form only that option permits
+func lenientNames(r *rng, in parseIn) parseIn {
+	if len(in.Tree.Cmds) < 2 || len(in.Words) < 2 {
+		return in
+	}
+	names := map[string]bool{}
+	for _, c := range in.Tree.Cmds[1:] {
+		names[c.Name] = true
+		for _, a := range c.Aliases {
+			names[a] = true
+		}
+	}
+	prefix := r.chance(50)
+	in.Tree.PrefixMatching = prefix
+	in.Tree.CaseInsensitive = !prefix || r.chance(20)
+	words := append([]string{}, in.Words...)
+	for i := 0; i < len(words)-1; i++ {
+		if !names[words[i]] || r.chance(25) {
+			continue
+		}
+		if prefix && len(words[i]) > 1 {
+			words[i] = words[i][:1+r.intn(len(words[i])-1)]
+		} else if in.Tree.CaseInsensitive {
+			words[i] = strings.ToUpper(words[i][:1]) + words[i][1:]
+		}
+	}
+	in.Words = words
+	return in
+}
+
 func genParse(r *rng, tier string) interface{} {
+	in := genParse0(r, tier)
+	if pi, ok := in.(parseIn); ok && r.chance(6) {
+		return lenientNames(r, pi)
+	}
+	return in
+}
+
+func genParse0(r *rng, tier string) interface{} {
 	t := genTree(r)
 	if r.chance(10) {
 		return genParseFork(r, t)
